@@ -355,7 +355,8 @@ class Repo:
                             if not (isinstance(st, ast.Try) and len(st.body) == 1 and len(st.handlers) == 1 and not st.finalbody):
                                 continue
                             a, h = st.body[0], st.handlers[0]
-                            if not (isinstance(a, ast.Assign) and len(a.targets) == 1 and isinstance(a.targets[0], ast.Name) and isinstance(a.value, ast.Subscript) and isinstance(a.value.value, ast.Name) and a.value.value.id in plain):
+                            bare = isinstance(a, ast.Expr) and isinstance(a.value, ast.Subscript) and isinstance(a.value.value, ast.Name) and a.value.value.id in plain  # `try: D[K]` as a membership probe
+                            if not bare and not (isinstance(a, ast.Assign) and len(a.targets) == 1 and isinstance(a.targets[0], ast.Name) and isinstance(a.value, ast.Subscript) and isinstance(a.value.value, ast.Name) and a.value.value.id in plain):
                                 continue
                             if not (isinstance(h.type, ast.Name) and h.type.id == "KeyError" and (h.name is None or not any(isinstance(x, ast.Name) and x.id == h.name for b in h.body for x in ast.walk(b)))):
                                 continue
@@ -363,7 +364,7 @@ class Repo:
                             if not all(isinstance(x, (ast.Name, ast.Attribute, ast.Constant, ast.Load, ast.Subscript, ast.Tuple)) for x in ast.walk(key)):
                                 continue
                             test = ast.Compare(left=key, ops=[ast.NotIn()], comparators=[ast.Name(id=a.value.value.id, ctx=ast.Load())])
-                            lst[i] = ast.fix_missing_locations(ast.copy_location(ast.If(test=test, body=h.body, orelse=[a] + st.orelse), st))
+                            lst[i] = ast.fix_missing_locations(ast.copy_location(ast.If(test=test, body=h.body, orelse=([] if bare else [a]) + st.orelse), st))
 
     def _scalarise_records(self):
         """Scalar replacement of local records.  A local name that is only ever bound to a record of one fixed shape — a
@@ -2131,7 +2132,7 @@ def string_builders(func):
             continue
         par = parents.get(n)
         if isinstance(n.ctx, ast.Store):
-            if isinstance(par, ast.Assign) and len(par.targets) == 1 and par.targets[0] is n and ((isinstance(par.value, ast.List) and not par.value.elts) or (isinstance(par.value, ast.Call) and isinstance(par.value.func, ast.Name) and par.value.func.id == "list" and not par.value.args)):
+            if isinstance(par, ast.Assign) and len(par.targets) == 1 and par.targets[0] is n and ((isinstance(par.value, ast.List) and not any(isinstance(x, ast.Starred) for x in par.value.elts)) or (isinstance(par.value, ast.Call) and isinstance(par.value.func, ast.Name) and par.value.func.id == "list" and not par.value.args)):
                 inits.setdefault(n.id, []).append(par)
             else:
                 other.add(n.id)
@@ -2152,14 +2153,37 @@ def string_builders(func):
             ok.add(nm)
     if not ok:
         return func
+    # L = [X] with X a local string that is not touched again: X itself goes on as the accumulator
+    carry = {}
+    rebind_stmts = set()
+    for nm in ok:
+        if len(inits[nm]) == 1 and isinstance(inits[nm][0].value, ast.List) and len(inits[nm][0].value.elts) == 1 and isinstance(inits[nm][0].value.elts[0], ast.Name):
+            x = inits[nm][0].value.elts[0]
+            later = [y for y in ast.walk(node) if isinstance(y, ast.Name) and y.id == x.id and y is not x and func.before(inits[nm][0], y)]
+            # `X = "".join(L)` rebinding X to the finished string is the only later mention that is allowed
+            jpar = parents.get(joins[nm][0])
+            rebinding = isinstance(jpar, ast.Assign) and len(jpar.targets) == 1 and isinstance(jpar.targets[0], ast.Name) and jpar.targets[0].id == x.id and jpar.value is joins[nm][0]
+            if rebinding:
+                later = [y for y in later if y is not jpar.targets[0] and func.before(y, jpar)]
+            if not later and x.id not in func.params:
+                carry[nm] = x.id
+                if rebinding:
+                    rebind_stmts.add(id(jpar))
     ids_init = {id(st) for nm in ok for st in inits[nm]}
-    ids_app = {id(c): nm for nm in ok for c in appends[nm]}
-    ids_join = {id(c): nm for nm in ok for c in joins[nm]}
+    ids_app = {id(c): carry.get(nm, nm) for nm in ok for c in appends[nm]}
+    ids_join = {id(c): carry.get(nm, nm) for nm in ok for c in joins[nm]}
+    ids_drop = {id(inits[nm][0]) for nm in carry} | rebind_stmts
 
     class T(ast.NodeTransformer):
         def visit_Assign(self, st):
+            if id(st) in ids_drop:
+                return ast.copy_location(ast.Pass(), st)
             if id(st) in ids_init:
-                return ast.copy_location(ast.Assign(targets=st.targets, value=ast.Constant(value="")), st)
+                first = st.value.elts if isinstance(st.value, ast.List) else []
+                v = ast.Constant(value="")
+                for i_, x in enumerate(first):  # L = [a, b]: the string starts as a + b
+                    v = x if i_ == 0 else ast.BinOp(left=v, op=ast.Add(), right=x)
+                return ast.copy_location(ast.Assign(targets=st.targets, value=v), st)
             return self.generic_visit(st)
 
         def visit_Expr(self, st):
@@ -2180,6 +2204,7 @@ def string_builders(func):
     m2 = list(ast.walk(root))
     remap = {id(a): b for a, b in zip(m1, m2)}
     ids_init = {id(remap[i]) for i in ids_init}
+    ids_drop = {id(remap[i]) for i in ids_drop}
     ids_app = {id(remap[i]): nm for i, nm in ids_app.items()}
     ids_join = {id(remap[i]): nm for i, nm in ids_join.items()}
     root = T().visit(root)
